@@ -11,12 +11,18 @@ Base bucket `<sym>/1Min/OHLCV` with columns Open, High, Low, Close (float32) and
 configured zone UTC, no market-hours filter.  A column series is a list of bars; prices are IEEE
 binary32 bit patterns compared with `Float.lt/gt`.
 
+Three statements of `Fire` were repaired (C24-F1/F2/F3); the model carries a `Variant` saying, per
+statement, whether the source has the repaired or the earlier form (`Model/OnDiskAggTie.lean` reads it
+off the regenerated skeletons, so the model follows the code):
+* `minMax`: `head`/`tail` are the times of the EARLIEST and LATEST written record (earlier: of the
+  first and last record of the request);
+* `validInside`: `cachedAgg.Valid(tail, head)` is "the written range lies inside the cached window"
+  (earlier: "overlaps the cached window");
+* `newWins`: on a cache hit the cached series is united with the written records by
+  `ColumnSeriesUnion(cached, new)`, the RIGHT operand (the written rows) winning on equal epochs
+  (earlier: `(new, cached)`, the cached row winning); nothing is read from disk on a hit.
+
 Quirks kept:
-* `head`/`tail` are the times of the FIRST and LAST written record, not the minimum and maximum;
-* `cachedAgg.Valid(tail, head)` is "the written range overlaps the cached window";
-* on a cache hit the written records are united with the cached series by
-  `ColumnSeriesUnion(new, cached)` in which the RIGHT operand (the cache) wins on equal epochs, and
-  nothing is read from disk;
 * `SliceColumnSeriesByEpoch` leaves the series untouched on the side where no row satisfies the
   bound, and its upper bound is strict (`epoch < end`) although `end` is "last second of the window";
 * `writeAggregates` returns before touching the cache when the slice is empty; the cache is stored by
@@ -126,7 +132,10 @@ structure Rec where
   payload : Bytes
 deriving Repr, DecidableEq
 
-def recTime (year : Int) (r : Rec) : Int := indexToTime utc r.index minuteNs year / nsPerSec
+/-- `io.IndexToTime(index, tf.Duration, year).Unix()` -/
+def idxTime (year : Int) (index : Int) : Int := indexToTime utc index minuteNs year / nsPerSec
+
+def recTime (year : Int) (r : Rec) : Int := idxTime year r.index
 
 /-- `RecordsToColumnSeries` -/
 def recordsToCS (year : Int) (recs : List Rec) : CS := recs.map (fun r => barOfPayload (recTime year r) r.payload)
@@ -156,8 +165,25 @@ structure Cached where
   head : Int
 deriving Repr, DecidableEq
 
+/-- which form of the three repaired statements the source has -/
+structure Variant where
+  /-- `ColumnSeriesUnion(&c.cs, cs)`: written rows win over cached rows -/
+  newWins : Bool
+  /-- `Valid`: `head >= c.tail && tail <= c.head` -/
+  validInside : Bool
+  /-- head / tail from the minimum / maximum record index -/
+  minMax : Bool
+deriving DecidableEq, Repr
+
+/-- the source after the repairs -/
+def Variant.fixed : Variant := ⟨true, true, true⟩
+/-- the source before the repairs -/
+def Variant.old : Variant := ⟨false, false, false⟩
+
 /-- `c.Valid(tail, head)` -/
-def Cached.valid (c : Cached) (tail head : Int) : Bool := decide (tail ≥ c.tail) && decide (head ≤ c.head)
+def Cached.valid (v : Variant) (c : Cached) (tail head : Int) : Bool :=
+  if v.validInside then decide (head ≥ c.tail) && decide (tail ≤ c.head)
+  else decide (tail ≥ c.tail) && decide (head ≤ c.head)
 
 def truncSec (cd : CandleDuration) (t : Int) : Int := truncate cd utc (t * nsPerSec) / nsPerSec
 def ceilSec (cd : CandleDuration) (t : Int) : Int := Timeframe.ceil cd utc (t * nsPerSec) / nsPerSec
@@ -189,17 +215,31 @@ def writeLoop (upDur : Int) (cs : CS) (head tail : Int) : List Dest → WriteRes
         | none => { acc with cache := cache' }
         | some out => writeLoop upDur cs head tail ds { writes := acc.writes ++ [(d.str, out)], cache := cache' }
 
+/-- record index whose time is `head`: the smallest index (repaired) / the first record's -/
+def headTime (v : Variant) (year : Int) (r0 : Rec) (rest : List Rec) : Int :=
+  if v.minMax then idxTime year (rest.foldl (fun m r => if r.index < m then r.index else m) r0.index)
+  else recTime year r0
+
+/-- `tail`: the largest index (repaired) / the last record's -/
+def tailTime (v : Variant) (year : Int) (r0 : Rec) (rest : List Rec) : Int :=
+  if v.minMax then idxTime year (rest.foldl (fun m r => if r.index > m then r.index else m) r0.index)
+  else recTime year ((r0 :: rest).getLast (by simp))
+
+/-- the series a cache hit aggregates: `ColumnSeriesUnion(&c.cs, cs)` (repaired) / `(cs, &c.cs)` -/
+def hitSeries (v : Variant) (c : Cached) (new : CS) : CS :=
+  if v.newWins then union c.cs new else union new c.cs
+
 /-- `Fire(keyPath, records)` for the file of `year`.  `q start end` is
     `ExecuteQuery(tbk, start, end, 0, false, nil)` on the base bucket (seconds, both inclusive);
     `none` = error / bucket missing. -/
-def fire (dests : List Dest) (q : Int → Int → Option CS) (cache : Option Cached) (year : Int)
+def fire (v : Variant) (dests : List Dest) (q : Int → Int → Option CS) (cache : Option Cached) (year : Int)
     (recs : List Rec) : WriteRes :=
   match recs, upperBound dests with
   | [], _ => ⟨[], cache⟩            -- never dispatched (Go would panic on records[0])
   | _, none => ⟨[], cache⟩
   | r0 :: rest, some up =>
-    let head := recTime year r0
-    let tail := recTime year ((r0 :: rest).getLast (by simp))
+    let head := headTime v year r0 rest
+    let tail := tailTime v year r0 rest
     match candleDurationFromString up.str with
     | none => ⟨[], cache⟩
     | some window =>
@@ -209,8 +249,8 @@ def fire (dests : List Dest) (q : Int → Int → Option CS) (cache : Option Cac
         | some cs => writeLoop up.duration cs head tail dests ⟨[], cache⟩
       match cache with
       | some c =>
-        if c.valid tail head then
-          writeLoop up.duration (union (recordsToCS year (r0 :: rest)) c.cs) head tail dests ⟨[], cache⟩
+        if c.valid v tail head then
+          writeLoop up.duration (hitSeries v c (recordsToCS year (r0 :: rest))) head tail dests ⟨[], cache⟩
         else queryPath none
       | none => queryPath none
 
@@ -272,17 +312,17 @@ def cmdYears (cs : List Store.Cmd) : List Int := (cs.map (·.year)).eraseDups
 
 /-- one write request to the base bucket, flushed, and the trigger calls it causes (one per year
     file, here in ascending order of appearance; the real dispatcher starts them concurrently) -/
-def stepWrite (dests : List Dest) (st : St) (req : List Row) : St :=
+def stepWrite (v : Variant) (dests : List Dest) (st : St) (req : List Row) : St :=
   let cmds := writeRecords minuteNs req
   let base' := applyCmds st.base cmds
   let q : Int → Int → Option CS := fun s e =>
     some (barsOfSlots minuteNs base' { start := some (s * nsPerSec), stop := some (e * nsPerSec), limit := none })
   (cmdYears cmds).foldl (fun st y =>
     let recs := (cmds.filter (fun c => c.year = y)).map (fun c => (⟨c.index, c.payload⟩ : Rec))
-    let r := fire dests q st.cache y recs
+    let r := fire v dests q st.cache y recs
     { st with dest := applyWrites dests st.dest r.writes, cache := r.cache }) { st with base := base' }
 
-def runHist (dests : List Dest) (hist : List (List Row)) : St := hist.foldl (stepWrite dests) St.init
+def runHist (v : Variant) (dests : List Dest) (hist : List (List Row)) : St := hist.foldl (stepWrite v dests) St.init
 
 /-- rows currently stored in the base bucket, ascending -/
 def baseBars (st : St) : CS := barsOfSlots minuteNs st.base { start := none, stop := none, limit := none }
